@@ -13,14 +13,16 @@ package main
 //@   loop 1
 //@     transition (=> (not (= format@iter "")) (= format format@iter))                                      [C05]
 //@     invariant (wfDocs (Parser.docs p) allocTop)
+//@     invariant (=> (and (not (= (options.OutputFormat opts) 0)) (not (= (deref_String (options.OutputFormat opts)) ""))) (= format (deref_String (options.OutputFormat opts))))   [C05]
+//@     invariant (=> (and (= (options.OutputFormat opts) 0) (not (= (options.OutputPath opts) 0))) (= format ""))      [C05]
 //@   at call FileMatch#1
 //@     assert (= path@arg elem)                                                                             [C03]
 //@   at call Parser.OutputToWriter#1
 //@     assert (and (= (options.OutputPath opts) 0) (= format@arg format))                                   [C05]
-//@     assert (=> (not (= (options.OutputFormat opts) 0)) (= format@arg (deref_String (options.OutputFormat opts))))   [C05]   -- -f wins
+//@     assert (=> (and (not (= (options.OutputFormat opts) 0)) (not (= (deref_String (options.OutputFormat opts)) ""))) (= format@arg (deref_String (options.OutputFormat opts))))   [C05]   -- -f wins
 //@   at call Parser.OutputToFile#1
 //@     assert (and (not (= (options.OutputPath opts) 0)) (= format@arg format))                             [C05]
-//@     assert (=> (not (= (options.OutputFormat opts) 0)) (= format@arg (deref_String (options.OutputFormat opts))))   [C05]   -- -f wins over the -o extension
+//@     assert (=> (and (not (= (options.OutputFormat opts) 0)) (not (= (deref_String (options.OutputFormat opts)) ""))) (= format@arg (deref_String (options.OutputFormat opts))))   [C05]   -- -f wins over the -o extension
 //@     assert (=> (= (options.OutputFormat opts) 0) (= format@arg ""))                                         [C05]   -- without -f the -o extension decides (OutputToFile)
 //@   at call Parser.MergeFile#1
 //@     assert (= path@arg realPath)                                                                         [C03]
